@@ -83,15 +83,17 @@ def layout_case(draw, tier: str):
                 g.name = nm
     # a sibling field spelled like the flattened name of a nested leaf ("status_code" next to status: {code}): a signal
     # block declared for the sibling must not reach the nested leaf
+    flat_sib: Dict[str, str] = {}
     for st_ in s.structs:
         nested_f = [f for f in st_.fields if isinstance(M.type_leaf(f.type), M.StructRef)]
-        if nested_f and draw(st.integers(0, 4)) == 0:
+        if nested_f and draw(st.integers(0, 1)) == 0:
             f = draw(st.sampled_from(nested_f))
             inner = s.struct(M.type_leaf(f.type).name)
             g = draw(st.sampled_from(inner.fields))
-            nm = f.name + draw(st.sampled_from(["_", "_", "", "__"])) + g.name
+            nm = f.name + draw(st.sampled_from(["_", "_", "_", "_", "", "__"])) + g.name
             if all(h.name != nm for h in st_.fields):
                 st_.fields.append(M.Field(nm, max(h.fid for h in st_.fields) + 1, M.U(draw(st.integers(1, 8)))))
+                flat_sib[st_.name] = nm
     if draw(st.integers(0, 7)) == 0:
         # directed: an array of structs whose elements contain an array of structs (two unrolled levels), with the
         # inner field named after the outer one
@@ -122,6 +124,9 @@ def layout_case(draw, tier: str):
         used.add((eff, proto))
         fields = [("id", draw(st.integers(0, 2047)))]
         sbs = draw(S.signal_blocks(s, target))
+        if target in flat_sib and all(sb.name != flat_sib[target] for sb in sbs) and draw(st.integers(0, 3)) != 0:
+            sbs.append(M.SignalBlock(flat_sib[target], draw(st.sampled_from([
+                [("endianess", "big")], [("mux_count", 4), ("mux_signal", flat_sib[target])], [("endianess", "big"), ("scale", 2)]]))))
         order = S.interleave(draw, len(fields), len(sbs))
         s.decls.append(M.Impl(proto, target, nm, fields, sbs, order))
     n_impls_total = len(s.impls) + len(s.structs)
